@@ -1285,6 +1285,42 @@ def r12_12(rep, prog):
         if not resets:
             rep.violated('R12.12', inst, hf.where(arm.line), 'the reset handler never reaches this memory (used at line %s under `%s`)' % (uses[0][1], show(uses[0][2])), key=acc.name + ':reset-missing')
             continue
+        # extent: the reset handler clears as many elements as the initialiser (fields and the parameters stored into them
+        # are the same quantity)
+        def extent(g, cf):
+            p2f = {}
+            for x in g.all_nodes():
+                if x[0] == 'assign' and sx.kind(sx.strip(x[1])) == 'field' and sx.kind(sx.strip(x[2])) == 'param':
+                    p2f[sx.strip(x[2])[1]] = sx.strip(x[1])[3]
+
+            def norm(e):
+                e = sx.strip(e)
+                k = sx.kind(e)
+                if k == 'field':
+                    return ('v', e[3])
+                if k == 'param' and e[1] in p2f:
+                    return ('v', p2f[e[1]])
+                if k == 'int':
+                    return e[1]
+                if k == 'bin':
+                    return (e[1], norm(e[2]), norm(e[3]))
+                if k == 'cast':
+                    return norm(e[4])
+                return sx.key(e)
+            out = []
+            for b, i, c in cf.find(lambda x: x[0] == 'call' and sx.callee_name(x) == 'memset' and len(x[2]) == 3 and
+                                   any(y[0] == 'call' and sx.callee_name(y) == acc.name for y in sx.walk(x[2][0]))):
+                if g.name != hf.name or b in arm.blocks:
+                    out.append((sx.line(c), norm(c[2][2]), sx.show(c[2][2])))
+            return out
+        ext_r = extent(hf, hcf)
+        ext_i = [e for g in prog.functions_all if g.file == msfile and 'init' in g.name for e in extent(g, cfgm.CFG(g))]
+        if ext_r and ext_i and any(r_[1] != i_[1] for r_ in ext_r for i_ in ext_i):
+            r_, i_ = [(r_, i_) for r_ in ext_r for i_ in ext_i if r_[1] != i_[1]][0]
+            rep.violated('R12.12', inst + ' (extent)', '%s:%s' % (hf.file, r_[0]),
+                         'the reset handler clears `%s` bytes of this memory, the initialiser (line %s) clears `%s`: part of the history survives a reset' % (r_[2][:70], i_[0], i_[2][:70]),
+                         key=acc.name + ':reset-extent')
+            continue
         bad = [(r, u) for r in resets for u in uses if not r[2] <= u[2]]
         if not bad:
             rep.holds('R12.12', inst, '%s:%s' % (hf.file, resets[0][1]), 'reset clears under `%s`; %d use site(s) under `%s`; init under `%s`' % (
